@@ -975,7 +975,7 @@ FAILURE_KINDS = ['cfg_invalid_yaml', 'cfg_no_default_profile', 'cfg_dup_module',
                  'overlay_baseline_missing', 'overlay_conflict', 'overlay_patch_fail', 'overlay_mixed',
                  'ro_target', 'ro_repo', 'ro_state', 'target_is_file', 'policy_violation', 'policy_cfg_invalid', 'policy_cfg_unsupported',
                  'policy_pack_missing', 'git_detached', 'no_remote', 'no_git_binary', 'snapshot_corrupt', 'events_garbage',
-                 'import_conflict', 'path_too_long']
+                 'import_conflict', 'path_too_long', 'unicode_long_id']
 
 def build_failure_world(kind, tag='f'):
     """A world in which a given failure class is provoked.  Built on the 'deployed' / 'pending' world."""
@@ -1091,6 +1091,13 @@ def build_failure_world(kind, tag='f'):
             W.write(os.path.join(sb.repo, 'modules/long', 'short.md'), open(os.path.join(sb.repo, 'modules/claude-commands/hello.md')).read())
             man['modules'].append({'id': 'skill:' + 'y' * 300, 'type': 'skill', 'tags': ['base'], 'targets': ['codex'],
                                    'source': {'local_path': {'path': 'modules/skills/helper'}}})
+            W.write_config(sb.repo, man)
+        elif kind == 'unicode_long_id':
+            # long module ids made of multi-byte letters, at several byte alignments (file-system keys, overlay
+            # directory names and output names are derived from ids by sanitising and truncating)
+            for n_, pre in ((40, ''), (40, 'x'), (33, 'ab'), (70, ''), (22, 'q')):
+                man['modules'].append({'id': 'prompt:' + pre + '\u00e9' * n_ + ('\u6f22' * 5 if n_ == 22 else ''), 'type': 'prompt', 'tags': ['base'], 'targets': ['codex'],
+                                       'source': {'local_path': {'path': 'modules/prompts/draftpr.md'}}})
             W.write_config(sb.repo, man)
         elif kind == 'events_garbage':
             W.write(os.path.join(sb.aphome, 'state', 'logs', 'events.jsonl'), '{"schema_version":1,\nnot json at all\n\xff\xfe\n'.encode('latin-1'))
